@@ -19,10 +19,41 @@ theorem cleanupAfterClose_eq (a : Bool) : cleanupAfterClose a = false := by
   simp [cleanupAfterClose, engine_close_cancels_cleanup_holds]
 
 theorem transportsAfterShutdown_eq (c : Bool) : transportsAfterShutdown c = true := by
-  simp only [transportsAfterShutdown, shutdown_closes_transports_holds, ↓reduceIte]
+  have h1 := shutdown_closes_transports_holds
+  have h2 := engine_async_close_shuts_down_holds
+  simp only [Bool.and_eq_true] at h1 h2
+  have h3 : Gen.Shutdown.shutdown_aborts_transports = false := by simpa using h1.2
+  simp [transportsAfterShutdown, h1.1, h2.1, h3]
+
+theorem runningAfterShutdown_eq (r : Bool) : runningAfterShutdown r = false := by
+  have h2 := engine_async_close_shuts_down_holds
+  simp only [Bool.and_eq_true] at h2
+  simp [runningAfterShutdown, h2.1, h2.2]
 
 theorem tcsAfterConnectionLost_eq (l : List Nat) : tcsAfterConnectionLost l = l := by
   simp [tcsAfterConnectionLost, connection_lost_is_noop_holds]
+
+theorem cancelJoins_eq : cancelJoins = true := by
+  simpa [cancelJoins] using thread_cancel_joins_holds
+
+theorem syncOrderOk_eq : syncOrderOk = true := by
+  simpa [syncOrderOk] using sync_order_holds
+
+theorem syncUnregisters_eq (r : Bool) : syncUnregisters r = r := by
+  simp [syncUnregisters, sync_close_unregisters_iff, sync_close_unregisters_off_loop]
+
+/-- `_async_cancel`: the scheduler timer is cancelled and the listener removed -/
+theorem asyncCancel_eq (b : Browser) : asyncCancel b = { b with cancelled := true, timer := false, listening := false } := by
+  simp [asyncCancel, browser_cancel_stops_scheduler_holds, scheduler_stop_cancels_timer_holds, browser_cancel_removes_listener_holds]
+
+theorem cancelTracked_eq (bs : List Browser) :
+    cancelTracked bs = bs.map (fun b => if b.tracked then { b with cancelled := true, timer := false, listening := false } else b) := by
+  simp [cancelTracked, close_cancels_tracked_browsers_holds, asyncCancel_eq]
+
+/-- `cancel()` from another thread: the queue is drained (join), the entry forgotten -/
+theorem syncCancel_eq (b : Browser) :
+    syncCancel b = { b with cancelled := true, timer := false, listening := false, queued := 0, zcTracked := false } := by
+  simp [syncCancel, asyncCancel_eq, cancelJoins_eq, remove_listener_forgets_holds]
 
 theorem gated_sub (h : Host) (l : List Out) : gated h l = [] ∨ gated h l = l := by
   unfold gated
@@ -30,25 +61,99 @@ theorem gated_sub (h : Host) (l : List Out) : gated h l = [] ∨ gated h l = l :
   · exact Or.inl rfl
   · exact Or.inr rfl
 
-theorem gated_no_goodbye (h : Host) (l : List Out) (hl : count isGoodbye l = 0) : count isGoodbye (gated h l) = 0 := by
-  rcases gated_sub h l with e | e <;> rw [e]
-  · rfl
-  · exact hl
+/-! ### `Zeroconf._close()` -/
+
+theorem zcClose_of_done (h : Host) (hd : h.done = true) : zcClose h = (h, []) := by
+  simp [zcClose, close_skipped_iff, hd]
+
+theorem zcClose_of_not_done (h : Host) (hd : h.done = false) :
+    zcClose h = ({ h with browsers := h.browsers.map (fun b => if b.zcTracked then syncCancel b else b), done := true },
+                 syncCancelOuts h.browsers) := by
+  simp [zcClose, close_skipped_iff, hd, close_removes_service_listeners_holds, close_sets_done_holds]
+
+/-- what `_close()` leaves alone, and that it ends with `done` -/
+theorem zcClose_frame (h : Host) :
+    (zcClose h).1.done = true ∧ (zcClose h).1.transportsClosed = h.transportsClosed ∧ (zcClose h).1.cleanupArmed = h.cleanupArmed ∧
+    (zcClose h).1.closes = h.closes ∧ (zcClose h).1.registry = h.registry ∧ (zcClose h).1.tcs = h.tcs ∧
+    (zcClose h).1.running = h.running ∧ (zcClose h).1.loopRunning = h.loopRunning ∧ (zcClose h).1.loopThread = h.loopThread := by
+  cases hd : h.done with
+  | true => rw [zcClose_of_done h hd]; simp [hd]
+  | false => rw [zcClose_of_not_done h hd]; simp
+
+theorem mem_syncCancelOuts {bs : List Browser} {x : Out} (hx : x ∈ syncCancelOuts bs) : x = .loopError ∨ x = .callback := by
+  simp only [syncCancelOuts, List.mem_flatMap] at hx
+  obtain ⟨b, _, hb⟩ := hx
+  split at hb
+  · split at hb
+    · simp only [List.mem_singleton] at hb; exact Or.inl hb
+    · exact Or.inr (List.eq_of_mem_replicate hb)
+  · simp at hb
+
+/-- `_close()` lets out callbacks of joined browser threads, and a loop error only when a browser of
+`Zeroconf.browsers` had been cancelled before -/
+theorem mem_zcClose_out {h : Host} {x : Out} (hx : x ∈ (zcClose h).2) : h.done = false ∧ (x = .loopError ∨ x = .callback) := by
+  cases hd : h.done with
+  | true => rw [zcClose_of_done h hd] at hx; simp at hx
+  | false =>
+    rw [zcClose_of_not_done h hd] at hx
+    exact ⟨rfl, mem_syncCancelOuts hx⟩
+
+theorem loopError_zcClose {h : Host} (hx : Out.loopError ∈ (zcClose h).2) :
+    h.done = false ∧ ∃ b ∈ h.browsers, b.zcTracked = true ∧ b.cancelled = true := by
+  cases hd : h.done with
+  | true => rw [zcClose_of_done h hd] at hx; simp at hx
+  | false =>
+    rw [zcClose_of_not_done h hd] at hx
+    refine ⟨rfl, ?_⟩
+    simp only [syncCancelOuts, List.mem_flatMap] at hx
+    obtain ⟨b, hb, hm⟩ := hx
+    split at hm
+    · rename_i hz
+      split at hm
+      · rename_i hc
+        exact ⟨b, hb, hz, hc⟩
+      · have := List.eq_of_mem_replicate hm
+        cases this
+    · simp at hm
+
+def isRaised : Out → Bool
+  | .raised _ => true
+  | _ => false
 
 theorem count_replicate_send (n : Nat) : count isGoodbye (List.replicate n Out.send) = 0 := by
   induction n with
   | zero => rfl
   | succ k ih => simp_all [count, List.replicate_succ, isGoodbye]
 
-theorem count_notify (h : Host) (u : Bool) : count isGoodbye (notify h u) = 0 := by
-  unfold notify count
-  split
-  · rw [List.filter_eq_nil_iff.mpr]
-    · rfl
-    · intro a ha
-      simp only [List.mem_append, List.mem_map, List.mem_replicate] at ha
-      rcases ha with ⟨_, _, rfl⟩ | ⟨_, rfl⟩ <;> simp [isGoodbye]
+theorem count_replicate_callback (n : Nat) : count isGoodbye (List.replicate n Out.callback) = 0 := by
+  induction n with
+  | zero => rfl
+  | succ k ih => simp_all [count, List.replicate_succ, isGoodbye]
+
+theorem count_zero_of_forall (l : List Out) (hl : ∀ x ∈ l, isGoodbye x = false) : count isGoodbye l = 0 := by
+  unfold count
+  rw [List.filter_eq_nil_iff.mpr]
   · rfl
+  · intro a ha; simp [hl a ha]
+
+theorem count_zcClose (h : Host) : count isGoodbye (zcClose h).2 = 0 := by
+  apply count_zero_of_forall
+  intro x hx
+  rcases (mem_zcClose_out hx).2 with rfl | rfl <;> rfl
+
+theorem gated_no_goodbye (h : Host) (l : List Out) (hl : count isGoodbye l = 0) : count isGoodbye (gated h l) = 0 := by
+  rcases gated_sub h l with e | e <;> rw [e]
+  · rfl
+  · exact hl
+
+theorem count_notify (h : Host) (u : Bool) : count isGoodbye (notify h u) = 0 := by
+  apply count_zero_of_forall
+  intro a ha
+  unfold notify at ha
+  split at ha
+  · simp only [List.mem_append, List.mem_map, List.mem_replicate] at ha
+    rcases ha with ⟨_, _, rfl⟩ | ⟨_, rfl⟩ <;> rfl
+  · simp at ha
 
 theorem count_append (p : Out → Bool) (a b : List Out) : count p (a ++ b) = count p a + count p b := by
   simp [count, List.filter_append]
@@ -91,15 +196,18 @@ theorem any_append_of (l : List Close) (x : Close) (h : l.any Close.isReturned =
 def WFc (h : Host) (c : Close) : Prop :=
   (c.stage = .doneSet → h.done = true) ∧
   (c.stage = .shutdown → h.done = true ∧ h.transportsClosed = true) ∧
-  (c.stage = .returned → h.done = true ∧ h.transportsClosed = true ∧ h.cleanupArmed = false)
+  (c.stage = .engineClosed ∨ c.stage = .stopping ∨ c.stage = .returned → Shut h)
 
-theorem WF_iff (h : Host) : WF h ↔ ∀ c ∈ h.closes, WFc h c := Iff.rfl
+theorem WF_iff (h : Host) : WF h ↔ (∀ c ∈ h.closes, WFc h c) ∧ (h.loopRunning = false → Shut h) := Iff.rfl
+
+theorem Shut.mono {h h' : Host} (d : h.done = true → h'.done = true)
+    (t : h.transportsClosed = true → h'.transportsClosed = true) (u : h.cleanupArmed = false → h'.cleanupArmed = false)
+    (w : Shut h) : Shut h' := ⟨d w.1, t w.2.1, u w.2.2⟩
 
 theorem WFc_mono {h h' : Host} {c : Close} (d : h.done = true → h'.done = true)
     (t : h.transportsClosed = true → h'.transportsClosed = true) (u : h.cleanupArmed = false → h'.cleanupArmed = false)
     (w : WFc h c) : WFc h' c :=
-  ⟨fun e => d (w.1 e), fun e => ⟨d (w.2.1 e).1, t (w.2.1 e).2⟩,
-   fun e => ⟨d (w.2.2 e).1, t (w.2.2 e).2.1, u (w.2.2 e).2.2⟩⟩
+  ⟨fun e => d (w.1 e), fun e => ⟨d (w.2.1 e).1, t (w.2.1 e).2⟩, fun e => (w.2.2 e).mono d t u⟩
 
 /-- what any single block can do to the flags and the close calls -/
 structure Summary (h h' : Host) : Prop where
@@ -108,15 +216,16 @@ structure Summary (h h' : Host) : Prop where
   cu_mono : h.cleanupArmed = false → h'.cleanupArmed = false
   closes : ∀ c ∈ h'.closes, c ∈ h.closes ∨ WFc h' c
   ret_mono : h.closes.any Close.isReturned = true → h'.closes.any Close.isReturned = true
+  loop : h'.loopRunning = false → h.loopRunning = false ∨ Shut h'
 
 theorem Summary.same {h h' : Host} (e1 : h'.done = h.done) (e2 : h'.transportsClosed = h.transportsClosed)
-    (e3 : h'.cleanupArmed = h.cleanupArmed) (e4 : h'.closes = h.closes) : Summary h h' :=
-  ⟨fun x => e1 ▸ x, fun x => e2 ▸ x, fun x => e3 ▸ x, fun c hc => Or.inl (e4 ▸ hc), fun x => e4 ▸ x⟩
+    (e3 : h'.cleanupArmed = h.cleanupArmed) (e4 : h'.closes = h.closes) (e5 : h'.loopRunning = h.loopRunning) : Summary h h' :=
+  ⟨fun x => e1 ▸ x, fun x => e2 ▸ x, fun x => e3 ▸ x, fun c hc => Or.inl (e4 ▸ hc), fun x => e4 ▸ x, fun x => Or.inl (e5 ▸ x)⟩
 
 theorem closeBody_flags (h : Host) (s : Bool) :
     (closeBody h s).1.done = h.done ∧ (closeBody h s).1.transportsClosed = h.transportsClosed ∧
       (closeBody h s).1.cleanupArmed = h.cleanupArmed ∧ (closeBody h s).1.closes = h.closes ∧
-      (closeBody h s).1.registry = 0 ∧ (closeBody h s).1.running = h.running := by
+      (closeBody h s).1.registry = 0 ∧ (closeBody h s).1.running = h.running ∧ (closeBody h s).1.loopRunning = h.loopRunning := by
   simp [closeBody]
 
 theorem closeBody_stage (h : Host) (s : Bool) : ∃ k, (closeBody h s).2.2 = .unregistering k := by
@@ -130,120 +239,39 @@ theorem WFc_aborted (h : Host) (s : Bool) : WFc h ⟨s, .aborted⟩ := by simp [
 
 theorem step_summary (h : Host) (b : Block) (h' : Host) (o : List Out) (hw : WF h) (hs : step h b = some (h', o)) : Summary h h' := by
   cases b with
-  | recv s q d u da =>
-    simp only [step] at hs
-    split at hs
-    · simp at hs
-    · simp only [Option.some.injEq, Prod.mk.injEq] at hs
-      obtain ⟨rfl, _⟩ := hs
-      exact Summary.same rfl rfl rfl rfl
-  | outqFire r =>
-    simp only [step] at hs
-    split at hs
-    · simp at hs
-    · simp only [Option.some.injEq, Prod.mk.injEq] at hs
-      obtain ⟨rfl, _⟩ := hs
-      exact Summary.same rfl rfl rfl rfl
-  | tcFire s q ti =>
-    simp only [step] at hs
-    split at hs
-    · simp at hs
-    · simp only [Option.some.injEq, Prod.mk.injEq] at hs
-      obtain ⟨rfl, _⟩ := hs
-      exact Summary.same rfl rfl rfl rfl
-    · simp only [Option.some.injEq, Prod.mk.injEq] at hs
-      obtain ⟨rfl, _⟩ := hs
-      exact Summary.same rfl rfl rfl rfl
-  | connectionLost =>
-    simp only [step] at hs
-    split at hs
-    · simp at hs
-    · simp only [Option.some.injEq, Prod.mk.injEq] at hs
-      obtain ⟨rfl, _⟩ := hs
-      exact Summary.same rfl rfl rfl rfl
-  | schedFire i q =>
-    simp only [step] at hs
-    split at hs
-    · simp at hs
-    · split at hs
-      · simp at hs
-      · split at hs <;>
-        · simp only [Option.some.injEq, Prod.mk.injEq] at hs
-          obtain ⟨rfl, _⟩ := hs
-          exact Summary.same rfl rfl rfl rfl
-  | cleanupFire e =>
-    simp only [step] at hs
-    split at hs
-    · simp at hs
-    · simp only [Option.some.injEq, Prod.mk.injEq] at hs
-      obtain ⟨rfl, _⟩ := hs
-      exact Summary.same rfl rfl rfl rfl
-  | probeStep l =>
-    simp only [step] at hs
-    split at hs
-    · simp at hs
-    · simp only [Option.some.injEq, Prod.mk.injEq] at hs
-      obtain ⟨rfl, _⟩ := hs
-      split <;> exact Summary.same rfl rfl rfl rfl
-  | announceStep l =>
-    simp only [step] at hs
-    split at hs
-    · simp at hs
-    · simp only [Option.some.injEq, Prod.mk.injEq] at hs
-      obtain ⟨rfl, _⟩ := hs
-      split <;> exact Summary.same rfl rfl rfl rfl
-  | lookupStep s f =>
-    simp only [step] at hs
-    split at hs
-    · simp at hs
-    · simp only [Option.some.injEq, Prod.mk.injEq] at hs
-      obtain ⟨rfl, _⟩ := hs
-      split <;> exact Summary.same rfl rfl rfl rfl
-  | startUp =>
-    simp only [step] at hs
-    split at hs
-    · simp at hs
-    · simp only [Option.some.injEq, Prod.mk.injEq] at hs
-      obtain ⟨rfl, _⟩ := hs
-      exact Summary.same rfl rfl rfl rfl
-  | apiCall k =>
-    simp only [step] at hs
-    split at hs
-    · simp only [Option.some.injEq, Prod.mk.injEq] at hs
-      obtain ⟨rfl, _⟩ := hs
-      exact Summary.same rfl rfl rfl rfl
-    · split at hs
-      · simp at hs
-      · cases k <;>
-        · simp only [Option.some.injEq, Prod.mk.injEq] at hs
-          obtain ⟨rfl, _⟩ := hs
-          exact Summary.same rfl rfl rfl rfl
-  | apiBrowse tr rp =>
-    simp only [step, Option.some.injEq, Prod.mk.injEq] at hs
-    obtain ⟨rfl, _⟩ := hs
-    exact Summary.same rfl rfl rfl rfl
   | closeCall sync =>
     simp only [step] at hs
     split at hs
-    · simp only [Option.some.injEq, Prod.mk.injEq] at hs
-      obtain ⟨rfl, _⟩ := hs
-      refine ⟨id, id, id, ?_, fun x => any_append_of _ _ x⟩
-      intro c hc
-      simp only [List.mem_append, List.mem_singleton] at hc
-      rcases hc with hc | rfl
-      · exact Or.inl hc
-      · exact Or.inr (WFc_waiting _ _)
-    · simp only [Option.some.injEq, Prod.mk.injEq] at hs
-      obtain ⟨rfl, _⟩ := hs
-      obtain ⟨f1, f2, f3, _, _, _⟩ := closeBody_flags h sync
-      obtain ⟨k, hk⟩ := closeBody_stage h sync
-      refine ⟨fun x => by simpa [f1] using x, fun x => by simpa [f2] using x, fun x => by simpa [f3] using x, ?_,
-        fun x => any_append_of _ _ x⟩
-      intro c hc
-      simp only [List.mem_append, List.mem_singleton] at hc
-      rcases hc with hc | rfl
-      · exact Or.inl hc
-      · rw [hk]; exact Or.inr (WFc_unreg _ _ _)
+    · simp at hs
+    · split at hs
+      · simp only [Option.some.injEq, Prod.mk.injEq] at hs
+        obtain ⟨rfl, _⟩ := hs
+        refine ⟨id, id, id, ?_, fun x => any_append_of _ _ x, fun x => Or.inl x⟩
+        intro c hc
+        simp only [List.mem_append, List.mem_singleton] at hc
+        rcases hc with hc | rfl
+        · exact Or.inl hc
+        · exact Or.inr (WFc_waiting _ _)
+      · split at hs
+        · simp only [Option.some.injEq, Prod.mk.injEq] at hs
+          obtain ⟨rfl, _⟩ := hs
+          refine ⟨id, id, id, ?_, fun x => any_append_of _ _ x, fun x => Or.inl x⟩
+          intro c hc
+          simp only [List.mem_append, List.mem_singleton] at hc
+          rcases hc with hc | rfl
+          · exact Or.inl hc
+          · exact Or.inr (WFc_unreg _ _ _)
+        · simp only [Option.some.injEq, Prod.mk.injEq] at hs
+          obtain ⟨rfl, _⟩ := hs
+          obtain ⟨f1, f2, f3, _, _, _, f7⟩ := closeBody_flags h sync
+          obtain ⟨k, hk⟩ := closeBody_stage h sync
+          refine ⟨fun x => by simpa [f1] using x, fun x => by simpa [f2] using x, fun x => by simpa [f3] using x, ?_,
+            fun x => any_append_of _ _ x, fun x => Or.inl (by simpa [f7] using x)⟩
+          intro c hc
+          simp only [List.mem_append, List.mem_singleton] at hc
+          rcases hc with hc | rfl
+          · exact Or.inl hc
+          · rw [hk]; exact Or.inr (WFc_unreg _ _ _)
   | closeWake i t =>
     simp only [step] at hs
     split at hs
@@ -253,10 +281,10 @@ theorem step_summary (h : Host) (b : Block) (h' : Host) (o : List Out) (hw : WF 
         intro h2 o2 he
         simp only [Option.some.injEq, Prod.mk.injEq] at he
         obtain ⟨rfl, _⟩ := he
-        obtain ⟨f1, f2, f3, f4, _, _⟩ := closeBody_flags h false
+        obtain ⟨f1, f2, f3, f4, _, _, f7⟩ := closeBody_flags h false
         obtain ⟨k, hk⟩ := closeBody_stage h false
         refine ⟨fun x => by simpa [Host.setStage, f1] using x, fun x => by simpa [Host.setStage, f2] using x,
-          fun x => by simpa [Host.setStage, f3] using x, ?_, ?_⟩
+          fun x => by simpa [Host.setStage, f3] using x, ?_, ?_, fun x => Or.inl (by simpa [Host.setStage, f7] using x)⟩
         · intro c hc
           rcases mem_setStage hc with rfl | hm
           · rw [hk]; exact Or.inr (WFc_unreg _ _ _)
@@ -271,7 +299,7 @@ theorem step_summary (h : Host) (b : Block) (h' : Host) (o : List Out) (hw : WF 
         · split at hs
           · simp only [Option.some.injEq, Prod.mk.injEq] at hs
             obtain ⟨rfl, _⟩ := hs
-            refine ⟨id, id, id, ?_, fun x => any_set_of_not _ i _ _ hi hnr x⟩
+            refine ⟨id, id, id, ?_, fun x => any_set_of_not _ i _ _ hi hnr x, fun x => Or.inl x⟩
             intro c hc
             rcases mem_setStage hc with rfl | hm
             · exact Or.inr (WFc_aborted _ _)
@@ -284,23 +312,36 @@ theorem step_summary (h : Host) (b : Block) (h' : Host) (o : List Out) (hw : WF 
     · rename_i sync k hi
       simp only [Option.some.injEq, Prod.mk.injEq] at hs
       obtain ⟨rfl, _⟩ := hs
-      refine ⟨id, id, id, ?_, fun x => any_set_of_not _ i _ _ hi rfl x⟩
+      refine ⟨id, id, id, ?_, fun x => any_set_of_not _ i _ _ hi rfl x, fun x => Or.inl x⟩
       intro c hc
       rcases mem_setStage hc with rfl | hm
       · exact Or.inr (WFc_unreg _ _ _)
       · exact Or.inl hm
     · simp at hs
-  | closeMarkDone i =>
+  | closeMarkDone i caller =>
     simp only [step] at hs
     split at hs
     · rename_i hi
-      simp only [Option.some.injEq, Prod.mk.injEq] at hs
-      obtain ⟨rfl, _⟩ := hs
-      refine ⟨fun _ => rfl, id, id, ?_, fun x => any_set_of_not _ i _ _ hi rfl x⟩
-      intro c hc
-      rcases mem_setStage hc with rfl | hm
-      · exact Or.inr (by simp [WFc])
-      · exact Or.inl hm
+      split at hs
+      · simp only [Option.some.injEq, Prod.mk.injEq] at hs
+        obtain ⟨rfl, _⟩ := hs
+        refine ⟨id, id, id, ?_, fun x => any_set_of_not _ i _ _ hi rfl x, fun x => Or.inl x⟩
+        intro c hc
+        rcases mem_setStage hc with rfl | hm
+        · exact Or.inr (WFc_aborted _ _)
+        · exact Or.inl hm
+      · simp only [Option.some.injEq, Prod.mk.injEq] at hs
+        obtain ⟨rfl, _⟩ := hs
+        obtain ⟨z1, z2, z3, z4, _, _, _, z8, _⟩ := zcClose_frame h
+        refine ⟨fun _ => by simpa [Host.setStage] using z1, fun x => by simpa [Host.setStage, z2] using x,
+          fun x => by simpa [Host.setStage, z3] using x, ?_, ?_, fun x => Or.inl (by simpa [Host.setStage, z8] using x)⟩
+        · intro c hc
+          rcases mem_setStage hc with rfl | hm
+          · exact Or.inr ⟨fun _ => by simpa [Host.setStage] using z1, by simp, by simp⟩
+          · exact Or.inl (z4 ▸ hm)
+        · intro x
+          simp only [Host.setStage, z4]
+          exact any_set_of_not _ i _ _ hi rfl x
     · simp at hs
   | closeShutdown i =>
     simp only [step] at hs
@@ -308,33 +349,100 @@ theorem step_summary (h : Host) (b : Block) (h' : Host) (o : List Out) (hw : WF 
     · rename_i hi
       simp only [Option.some.injEq, Prod.mk.injEq] at hs
       obtain ⟨rfl, _⟩ := hs
-      refine ⟨fun _ => rfl, fun _ => transportsAfterShutdown_eq h.transportsClosed, id, ?_, fun x => any_set_of_not _ i _ _ hi rfl x⟩
-      intro c hc
-      rcases mem_setStage hc with rfl | hm
-      · exact Or.inr (by simp [WFc, transportsAfterShutdown_eq])
-      · exact Or.inl hm
+      obtain ⟨z1, _, z3, z4, _, _, _, z8, _⟩ := zcClose_frame h
+      refine ⟨fun _ => by simpa [Host.setStage] using z1, fun _ => transportsAfterShutdown_eq h.transportsClosed,
+        fun x => by simpa [Host.setStage, z3] using x, ?_, ?_, fun x => Or.inl (by simpa [Host.setStage, z8] using x)⟩
+      · intro c hc
+        rcases mem_setStage hc with rfl | hm
+        · exact Or.inr ⟨by simp, fun _ => ⟨by simpa [Host.setStage] using z1, transportsAfterShutdown_eq h.transportsClosed⟩, by simp⟩
+        · exact Or.inl (z4 ▸ hm)
+      · intro x
+        simp only [Host.setStage, z4]
+        exact any_set_of_not _ i _ _ hi rfl x
     · rename_i hi
-      simp only [Option.some.injEq, Prod.mk.injEq] at hs
-      obtain ⟨rfl, _⟩ := hs
-      have hd : h.done = true := (hw _ (List.mem_of_getElem? hi)).1 rfl
-      refine ⟨id, fun _ => transportsAfterShutdown_eq h.transportsClosed, id, ?_, fun x => any_set_of_not _ i _ _ hi rfl x⟩
-      intro c hc
-      rcases mem_setStage hc with rfl | hm
-      · exact Or.inr ⟨by simp, fun _ => ⟨hd, transportsAfterShutdown_eq h.transportsClosed⟩, by simp⟩
-      · exact Or.inl hm
+      have hd : h.done = true := (hw.1 _ (List.mem_of_getElem? hi)).1 rfl
+      split at hs
+      · rename_i hown
+        rw [engine_close_off_loop] at hown
+        exact absurd hown (by decide)
+      · split at hs
+        · rename_i hsk
+          rw [engine_close_skipped_iff] at hsk
+          have hl : h.loopRunning = false := by simpa using hsk
+          have hsh := hw.2 hl
+          simp only [Option.some.injEq, Prod.mk.injEq] at hs
+          obtain ⟨rfl, _⟩ := hs
+          refine ⟨id, id, id, ?_, fun x => any_set_of_not _ i _ _ hi rfl x, fun x => Or.inl x⟩
+          intro c hc
+          rcases mem_setStage hc with rfl | hm
+          · exact Or.inr ⟨by simp, by simp, fun _ => hsh⟩
+          · exact Or.inl hm
+        · split at hs
+          · simp only [Option.some.injEq, Prod.mk.injEq] at hs
+            obtain ⟨rfl, _⟩ := hs
+            refine ⟨id, fun _ => transportsAfterShutdown_eq h.transportsClosed, id, ?_, fun x => any_set_of_not _ i _ _ hi rfl x, fun x => Or.inl x⟩
+            intro c hc
+            rcases mem_setStage hc with rfl | hm
+            · exact Or.inr ⟨by simp, fun _ => ⟨hd, transportsAfterShutdown_eq h.transportsClosed⟩, by simp⟩
+            · exact Or.inl hm
+          · rename_i haw
+            exact absurd engine_close_awaits_async_close_holds haw
     · simp at hs
   | closeFinish i =>
     simp only [step] at hs
     split at hs
-    · rename_i sync hi
+    · rename_i hi
       simp only [Option.some.injEq, Prod.mk.injEq] at hs
       obtain ⟨rfl, _⟩ := hs
-      obtain ⟨hd, ht⟩ := (hw _ (List.mem_of_getElem? hi)).2.1 rfl
-      refine ⟨id, id, fun _ => cleanupAfterClose_eq h.cleanupArmed, ?_, fun x => any_set_of_not _ i _ _ hi rfl x⟩
+      obtain ⟨hd, ht⟩ := (hw.1 _ (List.mem_of_getElem? hi)).2.1 rfl
+      refine ⟨id, id, fun _ => cleanupAfterClose_eq h.cleanupArmed, ?_, fun x => any_set_of_not _ i _ _ hi rfl x, fun x => Or.inl x⟩
       intro c hc
       rcases mem_setStage hc with rfl | hm
       · exact Or.inr ⟨by simp, by simp, fun _ => ⟨hd, ht, cleanupAfterClose_eq h.cleanupArmed⟩⟩
       · exact Or.inl hm
+    · rename_i hi
+      simp only [Option.some.injEq, Prod.mk.injEq] at hs
+      obtain ⟨rfl, _⟩ := hs
+      obtain ⟨hd, ht⟩ := (hw.1 _ (List.mem_of_getElem? hi)).2.1 rfl
+      refine ⟨id, id, fun _ => cleanupAfterClose_eq h.cleanupArmed, ?_, fun x => any_set_of_not _ i _ _ hi rfl x, fun x => Or.inl x⟩
+      intro c hc
+      rcases mem_setStage hc with rfl | hm
+      · exact Or.inr ⟨by simp, by simp, fun _ => ⟨hd, ht, cleanupAfterClose_eq h.cleanupArmed⟩⟩
+      · exact Or.inl hm
+    · simp at hs
+  | closeThreadsCheck i =>
+    simp only [step] at hs
+    split at hs
+    · rename_i hi
+      simp only [Option.some.injEq, Prod.mk.injEq] at hs
+      obtain ⟨rfl, _⟩ := hs
+      have hsh : Shut h := (hw.1 _ (List.mem_of_getElem? hi)).2.2 (Or.inl rfl)
+      refine ⟨id, id, id, ?_, fun x => any_set_of_not _ i _ _ hi rfl x, fun x => Or.inl x⟩
+      intro c hc
+      rcases mem_setStage hc with rfl | hm
+      · exact Or.inr ⟨by split <;> simp, by split <;> simp, fun _ => hsh⟩
+      · exact Or.inl hm
+    · simp at hs
+  | closeThreadsStop i =>
+    simp only [step] at hs
+    split at hs
+    · rename_i hi
+      have hsh : Shut h := (hw.1 _ (List.mem_of_getElem? hi)).2.2 (Or.inr (Or.inl rfl))
+      split at hs
+      · simp only [Option.some.injEq, Prod.mk.injEq] at hs
+        obtain ⟨rfl, _⟩ := hs
+        refine ⟨id, id, id, ?_, fun x => any_set_of_not _ i _ _ hi rfl x, fun x => Or.inl x⟩
+        intro c hc
+        rcases mem_setStage hc with rfl | hm
+        · exact Or.inr (WFc_aborted _ _)
+        · exact Or.inl hm
+      · simp only [Option.some.injEq, Prod.mk.injEq] at hs
+        obtain ⟨rfl, _⟩ := hs
+        refine ⟨id, id, id, ?_, fun x => any_set_of_not _ i _ _ hi rfl x, fun _ => Or.inr hsh⟩
+        intro c hc
+        rcases mem_setStage hc with rfl | hm
+        · exact Or.inr ⟨by simp, by simp, fun _ => hsh⟩
+        · exact Or.inl hm
     · simp at hs
   | closeAbort i =>
     simp only [step] at hs
@@ -343,20 +451,51 @@ theorem step_summary (h : Host) (b : Block) (h' : Host) (o : List Out) (hw : WF 
       | (rename_i hi
          simp only [Option.some.injEq, Prod.mk.injEq] at hs
          obtain ⟨rfl, _⟩ := hs
-         refine ⟨id, id, id, ?_, fun x => any_set_of_not _ i _ _ hi rfl x⟩
+         refine ⟨id, id, id, ?_, fun x => any_set_of_not _ i _ _ hi rfl x, fun x => Or.inl x⟩
          intro c hc
          rcases mem_setStage hc with rfl | hm
          · exact Or.inr (WFc_aborted _ _)
          · exact Or.inl hm)
       | simp at hs
+  | _ =>
+    simp only [step] at hs <;> (repeat' split at hs) <;>
+      first
+      | (simp at hs; done)
+      | (simp only [Option.some.injEq, Prod.mk.injEq] at hs
+         obtain ⟨rfl, _⟩ := hs
+         first
+         | exact Summary.same rfl rfl rfl rfl rfl
+         | (split <;> exact Summary.same rfl rfl rfl rfl rfl))
 
 /-- `WF` is an invariant of the machine -/
 theorem WF_step (h : Host) (b : Block) (h' : Host) (o : List Out) (hw : WF h) (hs : step h b = some (h', o)) : WF h' := by
   have sm := step_summary h b h' o hw hs
-  intro c hc
-  rcases sm.closes c hc with hm | hn
-  · exact WFc_mono sm.done_mono sm.tc_mono sm.cu_mono (hw c hm)
-  · exact hn
+  refine ⟨?_, ?_⟩
+  · intro c hc
+    rcases sm.closes c hc with hm | hn
+    · exact WFc_mono sm.done_mono sm.tc_mono sm.cu_mono (hw.1 c hm)
+    · exact hn
+  · intro hl
+    rcases sm.loop hl with h0 | hsh
+    · exact (hw.2 h0).mono sm.done_mono sm.tc_mono sm.cu_mono
+    · exact hsh
+
+theorem run_cons (h : Host) (c : Block) (m : List Block) (h' : Host) (o : List Out)
+    (hr : run h (c :: m) = some (h', o)) :
+    ∃ h1 o1 o2, step h c = some (h1, o1) ∧ run h1 m = some (h', o2) ∧ o = o1 ++ o2 := by
+  simp only [run, bind, Option.bind] at hr
+  cases h1 : step h c with
+  | none => simp [h1] at hr
+  | some v1 =>
+    obtain ⟨s1, o1⟩ := v1
+    simp only [h1] at hr
+    cases h2 : run s1 m with
+    | none => simp [h2] at hr
+    | some v2 =>
+      obtain ⟨s2, o2⟩ := v2
+      simp only [h2, pure, Option.some.injEq, Prod.mk.injEq] at hr
+      obtain ⟨rfl, rfl⟩ := hr
+      exact ⟨s1, o1, o2, rfl, h2, rfl⟩
 
 theorem WF_run (bs : List Block) : ∀ (h h' : Host) (o : List Out), WF h → run h bs = some (h', o) → WF h' := by
   induction bs with
@@ -367,19 +506,8 @@ theorem WF_run (bs : List Block) : ∀ (h h' : Host) (o : List Out), WF h → ru
     exact hw
   | cons b rest ih =>
     intro h h' o hw hr
-    simp only [run, bind, Option.bind] at hr
-    cases h1 : step h b with
-    | none => simp [h1] at hr
-    | some v1 =>
-      obtain ⟨s1, o1⟩ := v1
-      simp only [h1] at hr
-      cases h2 : run s1 rest with
-      | none => simp [h2] at hr
-      | some v2 =>
-        obtain ⟨s2, o2⟩ := v2
-        simp only [h2, pure, Option.some.injEq, Prod.mk.injEq] at hr
-        obtain ⟨rfl, _⟩ := hr
-        exact ih s1 s2 o2 (WF_step h b s1 o1 hw h1) h2
+    obtain ⟨s1, o1, o2, h1, h2, _⟩ := run_cons h b rest h' o hr
+    exact ih s1 h' o2 (WF_step h b s1 o1 hw h1) h2
 
 theorem run_append (a b : List Block) : ∀ h : Host,
     run h (a ++ b) = (run h a).bind (fun r => (run r.1 b).bind (fun r2 => some (r2.1, r.2 ++ r2.2))) := by
@@ -403,25 +531,12 @@ theorem run_append (a b : List Block) : ∀ h : Host,
         | none => rfl
         | some z => simp [List.append_assoc]
 
-/-- one block followed by more -/
-theorem run_cons (h : Host) (c : Block) (m : List Block) (h' : Host) (o : List Out)
-    (hr : run h (c :: m) = some (h', o)) :
-    ∃ h1 o1 o2, step h c = some (h1, o1) ∧ run h1 m = some (h', o2) ∧ o = o1 ++ o2 := by
-  simp only [run, bind, Option.bind] at hr
-  cases h1 : step h c with
-  | none => simp [h1] at hr
-  | some v1 =>
-    obtain ⟨s1, o1⟩ := v1
-    simp only [h1] at hr
-    cases h2 : run s1 m with
-    | none => simp [h2] at hr
-    | some v2 =>
-      obtain ⟨s2, o2⟩ := v2
-      simp only [h2, pure, Option.some.injEq, Prod.mk.injEq] at hr
-      obtain ⟨rfl, rfl⟩ := hr
-      exact ⟨s1, o1, o2, rfl, h2, rfl⟩
-
 /-! ### the registry stays empty; the frame around close `0` -/
+
+theorem zcClose_registry (h : Host) : (zcClose h).1.registry = h.registry := (zcClose_frame h).2.2.2.2.1
+theorem zcClose_closes (h : Host) : (zcClose h).1.closes = h.closes := (zcClose_frame h).2.2.2.1
+theorem zcClose_tcs (h : Host) : (zcClose h).1.tcs = h.tcs := (zcClose_frame h).2.2.2.2.2.1
+theorem zcClose_tclosed (h : Host) : (zcClose h).1.transportsClosed = h.transportsClosed := (zcClose_frame h).2.1
 
 theorem noCompletion_registry (h : Host) (b : Block) (hb : b.noCompletion = true) (h' : Host) (o : List Out)
     (hs : step h b = some (h', o)) (hr : h.registry = 0) : h'.registry = 0 := by
@@ -436,156 +551,16 @@ theorem noCompletion_registry (h : Host) (b : Block) (hb : b.noCompletion = true
       · simp only [Bool.false_eq_true, ↓reduceIte, Option.some.injEq, Prod.mk.injEq] at hs
         obtain ⟨rfl, _⟩ := hs
         exact hr
-  | apiBrowse tr rp =>
-    simp only [step, Option.some.injEq, Prod.mk.injEq] at hs
-    obtain ⟨rfl, _⟩ := hs
-    exact hr
-  | closeCall sync =>
-    simp only [step] at hs
-    split at hs
-    · simp only [Option.some.injEq, Prod.mk.injEq] at hs
-      obtain ⟨rfl, _⟩ := hs
-      exact hr
-    · simp only [Option.some.injEq, Prod.mk.injEq] at hs
-      obtain ⟨rfl, _⟩ := hs
-      simp [closeBody]
-  | closeWake i t =>
-    simp only [step] at hs
-    split at hs
-    · split at hs
-      · simp only [Option.some.injEq, Prod.mk.injEq] at hs
-        obtain ⟨rfl, _⟩ := hs
-        simp [closeBody, Host.setStage]
-      · split at hs
-        · simp at hs
-        · split at hs
-          · simp only [Option.some.injEq, Prod.mk.injEq] at hs
-            obtain ⟨rfl, _⟩ := hs
-            simpa [Host.setStage] using hr
-          · simp only [Option.some.injEq, Prod.mk.injEq] at hs
-            obtain ⟨rfl, _⟩ := hs
-            simp [closeBody, Host.setStage]
-    · simp at hs
-  | recv s q d u da =>
-    simp only [step] at hs
-    split at hs
-    · simp at hs
-    · simp only [Option.some.injEq, Prod.mk.injEq] at hs
-      obtain ⟨rfl, _⟩ := hs
-      exact hr
-  | outqFire r =>
-    simp only [step] at hs
-    split at hs
-    · simp at hs
-    · simp only [Option.some.injEq, Prod.mk.injEq] at hs
-      obtain ⟨rfl, _⟩ := hs
-      exact hr
-  | tcFire s q ti =>
-    simp only [step] at hs
-    split at hs
-    · simp at hs
-    · simp only [Option.some.injEq, Prod.mk.injEq] at hs
-      obtain ⟨rfl, _⟩ := hs
-      exact hr
-    · simp only [Option.some.injEq, Prod.mk.injEq] at hs
-      obtain ⟨rfl, _⟩ := hs
-      exact hr
-  | connectionLost =>
-    simp only [step] at hs
-    split at hs
-    · simp at hs
-    · simp only [Option.some.injEq, Prod.mk.injEq] at hs
-      obtain ⟨rfl, _⟩ := hs
-      exact hr
-  | schedFire i q =>
-    simp only [step] at hs
-    split at hs
-    · simp at hs
-    · split at hs
-      · simp at hs
-      · split at hs <;>
-        · simp only [Option.some.injEq, Prod.mk.injEq] at hs
-          obtain ⟨rfl, _⟩ := hs
-          exact hr
-  | cleanupFire e =>
-    simp only [step] at hs
-    split at hs
-    · simp at hs
-    · simp only [Option.some.injEq, Prod.mk.injEq] at hs
-      obtain ⟨rfl, _⟩ := hs
-      exact hr
-  | announceStep l =>
-    simp only [step] at hs
-    split at hs
-    · simp at hs
-    · simp only [Option.some.injEq, Prod.mk.injEq] at hs
-      obtain ⟨rfl, _⟩ := hs
-      split <;> exact hr
-  | lookupStep s f =>
-    simp only [step] at hs
-    split at hs
-    · simp at hs
-    · simp only [Option.some.injEq, Prod.mk.injEq] at hs
-      obtain ⟨rfl, _⟩ := hs
-      split <;> exact hr
-  | startUp =>
-    simp only [step] at hs
-    split at hs
-    · simp at hs
-    · simp only [Option.some.injEq, Prod.mk.injEq] at hs
-      obtain ⟨rfl, _⟩ := hs
-      exact hr
-  | apiCall k =>
-    simp only [step] at hs
-    split at hs
-    · simp only [Option.some.injEq, Prod.mk.injEq] at hs
-      obtain ⟨rfl, _⟩ := hs
-      exact hr
-    · split at hs
-      · simp at hs
-      · cases k <;>
-        · simp only [Option.some.injEq, Prod.mk.injEq] at hs
-          obtain ⟨rfl, _⟩ := hs
-          exact hr
-  | closeGoodbye i =>
-    simp only [step] at hs
-    split at hs
-    · simp only [Option.some.injEq, Prod.mk.injEq] at hs
-      obtain ⟨rfl, _⟩ := hs
-      simpa [Host.setStage] using hr
-    · simp at hs
-  | closeMarkDone i =>
-    simp only [step] at hs
-    split at hs
-    · simp only [Option.some.injEq, Prod.mk.injEq] at hs
-      obtain ⟨rfl, _⟩ := hs
-      simpa [Host.setStage] using hr
-    · simp at hs
-  | closeShutdown i =>
-    simp only [step] at hs
-    split at hs
-    · simp only [Option.some.injEq, Prod.mk.injEq] at hs
-      obtain ⟨rfl, _⟩ := hs
-      simpa [Host.setStage] using hr
-    · simp only [Option.some.injEq, Prod.mk.injEq] at hs
-      obtain ⟨rfl, _⟩ := hs
-      simpa [Host.setStage] using hr
-    · simp at hs
-  | closeFinish i =>
-    simp only [step] at hs
-    split at hs
-    · simp only [Option.some.injEq, Prod.mk.injEq] at hs
-      obtain ⟨rfl, _⟩ := hs
-      simpa [Host.setStage] using hr
-    · simp at hs
-  | closeAbort i =>
-    simp only [step] at hs
-    split at hs
-    all_goals first
+  | _ =>
+    simp only [step] at hs <;> (repeat' split at hs) <;>
+      first
+      | (simp at hs; done)
       | (simp only [Option.some.injEq, Prod.mk.injEq] at hs
          obtain ⟨rfl, _⟩ := hs
-         simpa [Host.setStage] using hr)
-      | simp at hs
+         first
+         | exact hr
+         | (split <;> exact hr)
+         | (simp [Host.setStage, closeBody, zcClose_registry, hr]; done))
 
 theorem noCompletion_run (bs : List Block) (hb : ∀ b ∈ bs, b.noCompletion = true) :
     ∀ (h h' : Host) (o : List Out), run h bs = some (h', o) → h.registry = 0 → h'.registry = 0 := by
@@ -717,23 +692,39 @@ theorem mid_step (h : Host) (b : Block) (hb : b.mid = true) (nog : ∀ i, b ≠ 
         · simp only [Option.some.injEq, Prod.mk.injEq] at hs
           obtain ⟨rfl, rfl⟩ := hs
           exact ⟨rfl, rfl, hreg, h0, rfl⟩
-  | apiBrowse tr rp =>
+  | apiBrowse tr rp th zt =>
     simp only [step, Option.some.injEq, Prod.mk.injEq] at hs
     obtain ⟨rfl, rfl⟩ := hs
     refine ⟨rfl, rfl, hreg, h0, ?_⟩
-    induction rp with
-    | zero => rfl
-    | succ k ih => simp_all [count, List.replicate_succ, isGoodbye]
+    split
+    · rfl
+    · exact count_replicate_callback rp
+  | browserThread i =>
+    simp only [step] at hs
+    split at hs
+    · simp at hs
+    · split at hs
+      · simp at hs
+      · split at hs <;>
+        · simp only [Option.some.injEq, Prod.mk.injEq] at hs
+          obtain ⟨rfl, rfl⟩ := hs
+          exact ⟨rfl, rfl, hreg, h0, rfl⟩
   | closeCall sync =>
     simp only [step] at hs
     split at hs
-    · simp only [Option.some.injEq, Prod.mk.injEq] at hs
-      obtain ⟨rfl, rfl⟩ := hs
-      exact ⟨rfl, rfl, hreg, getElem?_zero_append _ _ _ h0, rfl⟩
-    · simp only [Option.some.injEq, Prod.mk.injEq] at hs
-      obtain ⟨rfl, rfl⟩ := hs
-      refine ⟨by simp [closeBody], by simp [closeBody], by simp [closeBody], ?_, hbody _⟩
-      exact getElem?_zero_append _ _ _ h0
+    · simp at hs
+    · split at hs
+      · simp only [Option.some.injEq, Prod.mk.injEq] at hs
+        obtain ⟨rfl, rfl⟩ := hs
+        exact ⟨rfl, rfl, hreg, getElem?_zero_append _ _ _ h0, rfl⟩
+      · split at hs
+        · simp only [Option.some.injEq, Prod.mk.injEq] at hs
+          obtain ⟨rfl, rfl⟩ := hs
+          exact ⟨rfl, rfl, hreg, getElem?_zero_append _ _ _ h0, rfl⟩
+        · simp only [Option.some.injEq, Prod.mk.injEq] at hs
+          obtain ⟨rfl, rfl⟩ := hs
+          refine ⟨by simp [closeBody], by simp [closeBody], by simp [closeBody], ?_, hbody _⟩
+          exact getElem?_zero_append _ _ _ h0
   | closeWake i t =>
     have hi : i ≠ 0 := by simpa [Block.mid] using hb
     simp only [step] at hs
@@ -759,7 +750,7 @@ theorem mid_step (h : Host) (b : Block) (hb : b.mid = true) (nog : ∀ i, b ≠ 
             rw [getElem?_zero_set_ne _ _ _ hi]; exact h0
     · simp at hs
   | closeGoodbye i => exact absurd rfl (nog i)
-  | closeMarkDone i => simp [Block.mid] at hb
+  | closeMarkDone i c => simp [Block.mid] at hb
   | closeShutdown i => simp [Block.mid] at hb
   | closeFinish i =>
     have hi : i ≠ 0 := by simpa [Block.mid] using hb
@@ -770,6 +761,37 @@ theorem mid_step (h : Host) (b : Block) (hb : b.mid = true) (nog : ∀ i, b ≠ 
       refine ⟨rfl, rfl, hreg, ?_, rfl⟩
       simp only [Host.setStage]
       rw [getElem?_zero_set_ne _ _ _ hi]; exact h0
+    · simp only [Option.some.injEq, Prod.mk.injEq] at hs
+      obtain ⟨rfl, rfl⟩ := hs
+      refine ⟨rfl, rfl, hreg, ?_, rfl⟩
+      simp only [Host.setStage]
+      rw [getElem?_zero_set_ne _ _ _ hi]; exact h0
+    · simp at hs
+  | closeThreadsCheck i =>
+    have hi : i ≠ 0 := by simpa [Block.mid] using hb
+    simp only [step] at hs
+    split at hs
+    · simp only [Option.some.injEq, Prod.mk.injEq] at hs
+      obtain ⟨rfl, rfl⟩ := hs
+      refine ⟨rfl, rfl, hreg, ?_, rfl⟩
+      simp only [Host.setStage]
+      rw [getElem?_zero_set_ne _ _ _ hi]; exact h0
+    · simp at hs
+  | closeThreadsStop i =>
+    have hi : i ≠ 0 := by simpa [Block.mid] using hb
+    simp only [step] at hs
+    split at hs
+    · split at hs
+      · simp only [Option.some.injEq, Prod.mk.injEq] at hs
+        obtain ⟨rfl, rfl⟩ := hs
+        refine ⟨rfl, rfl, hreg, ?_, by simp [count, isGoodbye]⟩
+        simp only [Host.setStage]
+        rw [getElem?_zero_set_ne _ _ _ hi]; exact h0
+      · simp only [Option.some.injEq, Prod.mk.injEq] at hs
+        obtain ⟨rfl, rfl⟩ := hs
+        refine ⟨rfl, rfl, hreg, ?_, rfl⟩
+        simp only [Host.setStage]
+        rw [getElem?_zero_set_ne _ _ _ hi]; exact h0
     · simp at hs
   | closeAbort i =>
     have hi : i ≠ 0 := by simpa [Block.mid] using hb
@@ -818,7 +840,8 @@ theorem tcs_step (h : Host) (b : Block) (h' : Host) (o : List Out) (hs : step h 
        | exact Or.inl (tcsAfterConnectionLost_eq _)
        | exact Or.inr (Or.inl ⟨_, rfl⟩)
        | exact Or.inr (Or.inr ⟨_, rfl⟩)
-       | (simp only [closeBody, Host.setStage]; exact Or.inl rfl))
+       | (simp only [closeBody, Host.setStage]; exact Or.inl rfl)
+       | (simp only [Host.setStage]; exact Or.inl (zcClose_tcs h)))
 
 theorem deferOne_pos (l : List Nat) (i : Nat) (hl : ∀ n ∈ l, 0 < n) : ∀ n ∈ deferOne l i, 0 < n := by
   intro n hn
@@ -876,8 +899,13 @@ theorem not_loopError_notify (h : Host) (u : Bool) : Out.loopError ∉ notify h 
     rcases hm with ⟨_, _, hh⟩ | ⟨_, hh⟩ <;> cases hh
   · simp at hm
 
+/-- the two places where something can raise into the loop: a deferred-TC timer with nothing deferred, and `_close()`
+cancelling a browser of `Zeroconf.browsers` a second time -/
 theorem loopError_site (h : Host) (b : Block) (h' : Host) (o : List Out) (hs : step h b = some (h', o))
-    (he : Out.loopError ∈ o) : ∃ s q i, b = .tcFire s q i ∧ h.tcs[i]? = some 0 := by
+    (he : Out.loopError ∈ o) :
+    (∃ s q i, b = .tcFire s q i ∧ h.tcs[i]? = some 0) ∨
+    (((∃ i c, b = .closeMarkDone i c) ∨ (∃ i, b = .closeShutdown i)) ∧ h.done = false ∧
+      ∃ br ∈ h.browsers, br.zcTracked = true ∧ br.cancelled = true) := by
   have hsend : ∀ n, Out.loopError ∉ gated h (List.replicate n Out.send) :=
     fun n => not_loopError_gated h _ (not_loopError_replicate n _ (by intro hh; cases hh))
   have hone : ∀ y : Out, y ≠ .loopError → Out.loopError ∉ gated h [y] := by
@@ -889,13 +917,39 @@ theorem loopError_site (h : Host) (b : Block) (h' : Host) (o : List Out) (hs : s
     split at hm
     · simp at hm
     · exact hone .goodbye (by intro hh; cases hh) hm
-  cases b <;> simp only [step] at hs <;> (repeat' split at hs) <;>
+  cases b with
+  | closeMarkDone i c =>
+    simp only [step] at hs
+    split at hs
+    · split at hs
+      · simp only [Option.some.injEq, Prod.mk.injEq] at hs
+        obtain ⟨_, rfl⟩ := hs
+        simp at he
+      · simp only [Option.some.injEq, Prod.mk.injEq] at hs
+        obtain ⟨_, rfl⟩ := hs
+        obtain ⟨hd, hb⟩ := loopError_zcClose he
+        exact Or.inr ⟨Or.inl ⟨i, c, rfl⟩, hd, hb⟩
+    · simp at hs
+  | closeShutdown i =>
+    simp only [step] at hs
+    split at hs
+    · simp only [Option.some.injEq, Prod.mk.injEq] at hs
+      obtain ⟨_, rfl⟩ := hs
+      obtain ⟨hd, hb⟩ := loopError_zcClose he
+      exact Or.inr ⟨Or.inr ⟨i, rfl⟩, hd, hb⟩
+    · (repeat' split at hs) <;>
+      · simp only [Option.some.injEq, Prod.mk.injEq] at hs
+        obtain ⟨_, rfl⟩ := hs
+        simp at he
+    · simp at hs
+  | _ =>
+    simp only [step] at hs <;> (repeat' split at hs) <;>
     first
     | (simp at hs; done)
     | (simp only [Option.some.injEq, Prod.mk.injEq] at hs
        obtain ⟨_, rfl⟩ := hs
        first
-       | exact ⟨_, _, _, rfl, by assumption⟩
+       | exact Or.inl ⟨_, _, _, rfl, by assumption⟩
        | (exfalso
           first
           | (simp at he; done)
@@ -907,7 +961,10 @@ theorem loopError_site (h : Host) (b : Block) (h' : Host) (o : List Out) (hs : s
              · exact hsend _ hm
              · exact not_loopError_notify _ _ hm)
           | exact not_loopError_gated h _ (by simp) he
-          | exact not_loopError_replicate _ _ (by intro hh; cases hh) he))
+          | exact not_loopError_replicate _ _ (by intro hh; cases hh) he
+          | (split at he
+             · simp at he
+             · exact not_loopError_replicate _ _ (by intro hh; cases hh) he)))
 
 /-! ### every close call makes progress, and nobody else moves its program counter -/
 
@@ -922,7 +979,7 @@ theorem closes_step (h : Host) (b : Block) (h' : Host) (o : List Out) (hs : step
        | exact Or.inl rfl
        | exact Or.inr (Or.inl ⟨_, rfl⟩)
        | exact Or.inr (Or.inr ⟨_, _, rfl, rfl⟩)
-       | (simp only [closeBody, Host.setStage]
+       | (simp only [closeBody, Host.setStage, zcClose_closes]
           first
           | exact Or.inl rfl
           | exact Or.inr (Or.inl ⟨_, rfl⟩)
@@ -962,14 +1019,13 @@ theorem close_progress (h : Host) (k : Nat) (c : Close) (b : Block) (hc : h.clos
       | true =>
         simp only [Close.next, Option.some.injEq] at hn
         subst hn
-        exact ⟨{ h.setStage k true .doneSet with done := true }, [], ⟨true, .doneSet⟩, by simp [step, hc],
-          by simp [Host.setStage, hlt], by simp [Close.rank]⟩
+        exact ⟨(zcClose h).1.setStage k true .doneSet, (zcClose h).2, ⟨true, .doneSet⟩, by simp [step, hc, selfJoin],
+          by simp [Host.setStage, zcClose_closes, hlt], by simp [Close.rank]⟩
       | false =>
         simp only [Close.next, Option.some.injEq] at hn
         subst hn
-        exact ⟨{ h.setStage k false .shutdown with done := true, running := false, transportsClosed := transportsAfterShutdown h.transportsClosed },
-          [], ⟨false, .shutdown⟩,
-          by simp [step, hc], by simp [Host.setStage, hlt], by simp [Close.rank]⟩
+        simp only [step, hc]
+        exact ⟨_, _, ⟨false, .shutdown⟩, rfl, by simp [Host.setStage, zcClose_closes, hlt], by simp [Close.rank]⟩
     | succ m =>
       simp only [Close.next, Option.some.injEq] at hn
       subst hn
@@ -980,15 +1036,584 @@ theorem close_progress (h : Host) (k : Nat) (c : Close) (b : Block) (hc : h.clos
     | true =>
       simp only [Close.next, Option.some.injEq] at hn
       subst hn
-      exact ⟨{ h.setStage k true .shutdown with running := false, transportsClosed := transportsAfterShutdown h.transportsClosed },
-        [], ⟨true, .shutdown⟩, by simp [step, hc], by simp [Host.setStage, hlt], by simp [Close.rank]⟩
+      simp only [step, hc, engine_close_off_loop, Bool.false_eq_true, ↓reduceIte]
+      split
+      · exact ⟨_, _, ⟨true, .engineClosed⟩, rfl, by simp [Host.setStage, hlt], by simp [Close.rank]⟩
+      · split
+        · exact ⟨_, _, ⟨true, .shutdown⟩, rfl, by simp [Host.setStage, hlt], by simp [Close.rank]⟩
+        · exact ⟨_, _, ⟨true, .engineClosed⟩, rfl, by simp [Host.setStage, hlt], by simp [Close.rank]⟩
     | false => simp [Close.next] at hn
   | shutdown =>
-    have hn' : b = .closeFinish k := by cases sync <;> simpa [Close.next] using hn.symm
-    subst hn'
-    exact ⟨{ h.setStage k sync .returned with cleanupArmed := cleanupAfterClose h.cleanupArmed }, [], ⟨sync, .returned⟩,
-      by simp [step, hc], by simp [Host.setStage, hlt], by simp [Close.rank]⟩
+    cases sync with
+    | true =>
+      simp only [Close.next, Option.some.injEq] at hn
+      subst hn
+      simp only [step, hc]
+      exact ⟨_, _, ⟨true, .engineClosed⟩, rfl, by simp [Host.setStage, hlt], by simp [Close.rank]⟩
+    | false =>
+      simp only [Close.next, Option.some.injEq] at hn
+      subst hn
+      simp only [step, hc]
+      exact ⟨_, _, ⟨false, .returned⟩, rfl, by simp [Host.setStage, hlt], by simp [Close.rank]⟩
+  | engineClosed =>
+    cases sync with
+    | true =>
+      simp only [Close.next, Option.some.injEq] at hn
+      subst hn
+      simp only [step, hc]
+      refine ⟨_, _, ⟨true, if Gen.Shutdown.shutdown_threads_skipped h.loopThread then .returned else .stopping⟩, rfl,
+        by simp [Host.setStage, hlt], ?_⟩
+      split <;> simp [Close.rank]
+    | false => simp [Close.next] at hn
+  | stopping =>
+    cases sync with
+    | true =>
+      simp only [Close.next, Option.some.injEq] at hn
+      subst hn
+      simp only [step, hc]
+      split
+      · exact ⟨_, _, ⟨true, .aborted⟩, rfl, by simp [Host.setStage, hlt], by simp [Close.rank]⟩
+      · exact ⟨_, _, ⟨true, .returned⟩, rfl, by simp [Host.setStage, hlt], by simp [Close.rank]⟩
+    | false => simp [Close.next] at hn
   | returned => cases sync <;> simp [Close.next] at hn
   | aborted => cases sync <;> simp [Close.next] at hn
+
+/-! ### the browsers of `Zeroconf.browsers` are cancelled once (`ZcInv`) -/
+
+/-- one browser's share of `ZcInv` -/
+def okB (b : Browser) : Prop := b.zcTracked = true → b.cancelled = false ∧ b.tracked = false
+
+theorem ZcInv_iff (h : Host) : ZcInv h ↔ ∀ b ∈ h.browsers, okB b := Iff.rfl
+
+theorem forall_map {P : Browser → Prop} (f : Browser → Browser) (l : List Browser) (hl : ∀ b ∈ l, P b) (hf : ∀ b, P b → P (f b)) :
+    ∀ b ∈ l.map f, P b := by
+  intro b hb
+  obtain ⟨a, ha, rfl⟩ := List.mem_map.mp hb
+  exact hf a (hl a ha)
+
+theorem forall_mapIdx {P : Browser → Prop} (f : Nat → Browser → Browser) (l : List Browser) (hl : ∀ b ∈ l, P b)
+    (hf : ∀ i b, P b → P (f i b)) : ∀ b ∈ l.mapIdx f, P b := by
+  intro b hb
+  obtain ⟨i, hi, rfl⟩ := List.mem_mapIdx.mp hb
+  exact hf i _ (hl _ (List.getElem_mem hi))
+
+theorem forall_set {P : Browser → Prop} (l : List Browser) (i : Nat) (x : Browser) (hl : ∀ b ∈ l, P b) (hx : P x) :
+    ∀ b ∈ l.set i x, P b := by
+  intro b hb
+  rcases List.mem_or_eq_of_mem_set hb with hm | rfl
+  · exact hl b hm
+  · exact hx
+
+theorem forall_enqueue {P : Browser → Prop} (l : List Browser) (u : Bool) (hl : ∀ b ∈ l, P b)
+    (hf : ∀ b, P b → P { b with queued := b.queued + 1 }) : ∀ b ∈ enqueue l u, P b := by
+  unfold enqueue
+  split
+  · apply forall_map _ _ hl
+    intro b hb
+    split
+    · exact hf b hb
+    · exact hb
+  · exact hl
+
+theorem forall_cancelTracked {P : Browser → Prop} (l : List Browser) (hl : ∀ b ∈ l, P b)
+    (hf : ∀ b, P b → b.tracked = true → P { b with cancelled := true, timer := false, listening := false }) :
+    ∀ b ∈ cancelTracked l, P b := by
+  rw [cancelTracked_eq]
+  apply forall_map _ _ hl
+  intro b hb
+  split
+  · rename_i ht
+    exact hf b hb ht
+  · exact hb
+
+theorem forall_closeBody {P : Browser → Prop} (h : Host) (s : Bool) (hl : ∀ b ∈ h.browsers, P b)
+    (hf : ∀ b, P b → b.tracked = true → P { b with cancelled := true, timer := false, listening := false }) :
+    ∀ b ∈ (closeBody h s).1.browsers, P b := by
+  simp only [closeBody]
+  split
+  · exact hl
+  · exact forall_cancelTracked _ hl hf
+
+theorem forall_zcClose {P : Browser → Prop} (h : Host) (hl : ∀ b ∈ h.browsers, P b)
+    (hf : ∀ b, P b → b.zcTracked = true → P { b with cancelled := true, timer := false, listening := false, queued := 0, zcTracked := false }) :
+    ∀ b ∈ (zcClose h).1.browsers, P b := by
+  cases hd : h.done with
+  | true => rw [zcClose_of_done h hd]; exact hl
+  | false =>
+    rw [zcClose_of_not_done h hd]
+    apply forall_map _ _ hl
+    intro b hb
+    split
+    · rename_i hz
+      rw [syncCancel_eq]
+      exact hf b hb hz
+    · exact hb
+
+/-- `ZcInv` is preserved by every block except the aborted `_close()` of finding D30 -/
+theorem ZcInv_step (h : Host) (b : Block) (h' : Host) (o : List Out) (hz : ZcInv h) (hn : b.selfJoins h = false)
+    (hs : step h b = some (h', o)) : ZcInv h' := by
+  have hq : ∀ b : Browser, okB b → okB { b with queued := b.queued + 1 } := fun b hb => hb
+  have hct : ∀ b : Browser, okB b → b.tracked = true → okB { b with cancelled := true, timer := false, listening := false } := by
+    intro b hb ht hzt
+    have := (hb hzt).2
+    rw [ht] at this
+    cases this
+  have hzc : ∀ b : Browser, okB b → b.zcTracked = true →
+      okB { b with cancelled := true, timer := false, listening := false, queued := 0, zcTracked := false } := by
+    intro b _ _ hzt
+    cases hzt
+  cases b with
+  | recv s q d u da =>
+    simp only [step] at hs
+    split at hs
+    · simp at hs
+    · simp only [Option.some.injEq, Prod.mk.injEq] at hs
+      obtain ⟨rfl, _⟩ := hs
+      exact forall_enqueue _ _ hz hq
+  | cleanupFire e =>
+    simp only [step] at hs
+    split at hs
+    · simp at hs
+    · simp only [Option.some.injEq, Prod.mk.injEq] at hs
+      obtain ⟨rfl, _⟩ := hs
+      exact forall_enqueue _ _ hz hq
+  | schedFire i q =>
+    simp only [step] at hs
+    split at hs
+    · simp at hs
+    · split at hs
+      · simp at hs
+      · split at hs
+        · simp only [Option.some.injEq, Prod.mk.injEq] at hs
+          obtain ⟨rfl, _⟩ := hs
+          apply forall_mapIdx _ _ hz
+          intro j b hb
+          split
+          · exact hb
+          · exact hb
+        · simp only [Option.some.injEq, Prod.mk.injEq] at hs
+          obtain ⟨rfl, _⟩ := hs
+          exact hz
+  | apiBrowse tr rp th zt =>
+    simp only [step, Option.some.injEq, Prod.mk.injEq] at hs
+    obtain ⟨rfl, _⟩ := hs
+    intro b hb
+    simp only [List.mem_append, List.mem_singleton] at hb
+    rcases hb with hb | rfl
+    · exact hz b hb
+    · intro hzt
+      simp only at hzt
+      simp [hzt]
+  | browserThread i =>
+    simp only [step] at hs
+    split at hs
+    · simp at hs
+    · rename_i b0 hb0
+      have hb0' : okB b0 := hz b0 (List.mem_of_getElem? hb0)
+      split at hs
+      · simp at hs
+      · split at hs <;>
+        · simp only [Option.some.injEq, Prod.mk.injEq] at hs
+          obtain ⟨rfl, _⟩ := hs
+          exact forall_set _ _ _ hz hb0'
+  | closeCall sync =>
+    simp only [step] at hs
+    split at hs
+    · simp at hs
+    · split at hs
+      · simp only [Option.some.injEq, Prod.mk.injEq] at hs
+        obtain ⟨rfl, _⟩ := hs
+        exact hz
+      · split at hs
+        · simp only [Option.some.injEq, Prod.mk.injEq] at hs
+          obtain ⟨rfl, _⟩ := hs
+          exact hz
+        · simp only [Option.some.injEq, Prod.mk.injEq] at hs
+          obtain ⟨rfl, _⟩ := hs
+          exact forall_closeBody h sync hz hct
+  | closeWake i t =>
+    simp only [step] at hs
+    split at hs
+    · split at hs
+      · simp only [Option.some.injEq, Prod.mk.injEq] at hs
+        obtain ⟨rfl, _⟩ := hs
+        exact forall_closeBody h false hz hct
+      · split at hs
+        · simp at hs
+        · split at hs
+          · simp only [Option.some.injEq, Prod.mk.injEq] at hs
+            obtain ⟨rfl, _⟩ := hs
+            exact hz
+          · simp only [Option.some.injEq, Prod.mk.injEq] at hs
+            obtain ⟨rfl, _⟩ := hs
+            exact forall_closeBody h false hz hct
+    · simp at hs
+  | closeMarkDone i c =>
+    simp only [step] at hs
+    split at hs
+    · split at hs
+      · rename_i hsj
+        simp only [Block.selfJoins] at hn
+        rw [hn] at hsj
+        exact absurd hsj (by decide)
+      · simp only [Option.some.injEq, Prod.mk.injEq] at hs
+        obtain ⟨rfl, _⟩ := hs
+        exact forall_zcClose h hz hzc
+    · simp at hs
+  | closeShutdown i =>
+    simp only [step] at hs
+    split at hs
+    · simp only [Option.some.injEq, Prod.mk.injEq] at hs
+      obtain ⟨rfl, _⟩ := hs
+      exact forall_zcClose h hz hzc
+    · (repeat' split at hs) <;>
+      · simp only [Option.some.injEq, Prod.mk.injEq] at hs
+        obtain ⟨rfl, _⟩ := hs
+        exact hz
+    · simp at hs
+  | _ =>
+    simp only [step] at hs <;> (repeat' split at hs) <;>
+      first
+      | (simp at hs; done)
+      | (simp only [Option.some.injEq, Prod.mk.injEq] at hs
+         obtain ⟨rfl, _⟩ := hs
+         first
+         | exact hz
+         | (split <;> exact hz))
+
+/-! ### queues of thread-based browsers -/
+
+/-- one browser's share of `QueuesEmpty` -/
+def emptyB (b : Browser) : Prop := b.threaded = true → b.queued = 0
+
+/-- in a shut host nothing is added to a browser thread's queue by any block that is not the creation of a browser:
+nothing arrives and the cleanup timer cannot fire -/
+theorem QueuesEmpty_step (h : Host) (b : Block) (h' : Host) (o : List Out) (hq : QueuesEmpty h) (hsh : Shut h)
+    (hnb : b.isBrowse = false) (hs : step h b = some (h', o)) : QueuesEmpty h' := by
+  obtain ⟨hd, ht, hcl⟩ := hsh
+  have hct : ∀ b : Browser, emptyB b → b.tracked = true → emptyB { b with cancelled := true, timer := false, listening := false } :=
+    fun b hb _ => hb
+  cases b with
+  | recv s q d u da => simp [step, ht] at hs
+  | cleanupFire e => simp [step, hcl] at hs
+  | apiBrowse tr rp th zt => simp [Block.isBrowse] at hnb
+  | schedFire i q =>
+    simp only [step] at hs
+    split at hs
+    · simp at hs
+    · split at hs
+      · simp at hs
+      · split at hs
+        · simp only [Option.some.injEq, Prod.mk.injEq] at hs
+          obtain ⟨rfl, _⟩ := hs
+          apply forall_mapIdx _ _ hq
+          intro j b hb
+          split
+          · exact hb
+          · exact hb
+        · simp only [Option.some.injEq, Prod.mk.injEq] at hs
+          obtain ⟨rfl, _⟩ := hs
+          exact hq
+  | browserThread i =>
+    simp only [step] at hs
+    split at hs
+    · simp at hs
+    · rename_i b0 hb0
+      split at hs
+      · simp at hs
+      · split at hs
+        · simp only [Option.some.injEq, Prod.mk.injEq] at hs
+          obtain ⟨rfl, _⟩ := hs
+          exact forall_set _ _ _ hq (fun _ => rfl)
+        · simp only [Option.some.injEq, Prod.mk.injEq] at hs
+          obtain ⟨rfl, _⟩ := hs
+          apply forall_set _ _ _ hq
+          intro hth
+          have := hq b0 (List.mem_of_getElem? hb0) hth
+          simp [this]
+  | closeCall sync =>
+    simp only [step] at hs
+    split at hs
+    · simp at hs
+    · split at hs
+      · simp only [Option.some.injEq, Prod.mk.injEq] at hs
+        obtain ⟨rfl, _⟩ := hs
+        exact hq
+      · split at hs
+        · simp only [Option.some.injEq, Prod.mk.injEq] at hs
+          obtain ⟨rfl, _⟩ := hs
+          exact hq
+        · simp only [Option.some.injEq, Prod.mk.injEq] at hs
+          obtain ⟨rfl, _⟩ := hs
+          exact forall_closeBody h sync hq hct
+  | closeWake i t =>
+    simp only [step] at hs
+    split at hs
+    · split at hs
+      · simp only [Option.some.injEq, Prod.mk.injEq] at hs
+        obtain ⟨rfl, _⟩ := hs
+        exact forall_closeBody h false hq hct
+      · split at hs
+        · simp at hs
+        · split at hs
+          · simp only [Option.some.injEq, Prod.mk.injEq] at hs
+            obtain ⟨rfl, _⟩ := hs
+            exact hq
+          · simp only [Option.some.injEq, Prod.mk.injEq] at hs
+            obtain ⟨rfl, _⟩ := hs
+            exact forall_closeBody h false hq hct
+    · simp at hs
+  | closeMarkDone i c =>
+    simp only [step] at hs
+    split at hs
+    · split at hs
+      · rename_i hsj
+        simp [close_skipped_iff, hd] at hsj
+      · simp only [Option.some.injEq, Prod.mk.injEq] at hs
+        obtain ⟨rfl, _⟩ := hs
+        rw [zcClose_of_done h hd]
+        exact hq
+    · simp at hs
+  | closeShutdown i =>
+    simp only [step] at hs
+    split at hs
+    · simp only [Option.some.injEq, Prod.mk.injEq] at hs
+      obtain ⟨rfl, _⟩ := hs
+      rw [zcClose_of_done h hd]
+      exact hq
+    · (repeat' split at hs) <;>
+      · simp only [Option.some.injEq, Prod.mk.injEq] at hs
+        obtain ⟨rfl, _⟩ := hs
+        exact hq
+    · simp at hs
+  | _ =>
+    simp only [step] at hs <;> (repeat' split at hs) <;>
+      first
+      | (simp at hs; done)
+      | (simp only [Option.some.injEq, Prod.mk.injEq] at hs
+         obtain ⟨rfl, _⟩ := hs
+         first
+         | exact hq
+         | (split <;> exact hq))
+
+/-- `_close()` joins every browser of `Zeroconf.browsers`: afterwards the only thread-based browsers with something in
+their queue are ones the instance does not track (and they had it before) -/
+theorem zcClose_joins (h : Host) (hd : h.done = false) :
+    ∀ b ∈ (zcClose h).1.browsers, b.threaded = true → b.queued ≠ 0 → b ∈ h.browsers ∧ b.zcTracked = false := by
+  rw [zcClose_of_not_done h hd]
+  intro b hb hth hq
+  obtain ⟨a, ha, rfl⟩ := List.mem_map.mp hb
+  split at hq
+  · rw [syncCancel_eq] at hq
+    simp at hq
+  · rename_i hz
+    simp only [hz] at hb ⊢
+    exact ⟨ha, by simpa using hz⟩
+
+/-! ### the loop thread is stopped once (`LoopInv`) -/
+
+theorem LoopInv'_set (lt lr : Bool) (cl : List Close) (i : Nat) (c : Close) (hc : c.stage ≠ .stopping) (hl : LoopInv' lt lr cl) :
+    LoopInv' lt lr (cl.set i c) := by
+  obtain ⟨l1, l2, l3⟩ := hl
+  refine ⟨l1, ?_, ?_⟩
+  · intro j cj hj hst
+    rw [List.getElem?_set] at hj
+    split at hj
+    · split at hj
+      · simp only [Option.some.injEq] at hj; subst hj; exact absurd hst hc
+      · simp at hj
+    · exact l2 j cj hj hst
+  · intro a b ca cb ha hb sa sb
+    rw [List.getElem?_set] at ha hb
+    split at ha
+    · split at ha
+      · simp only [Option.some.injEq] at ha; subst ha; exact absurd sa hc
+      · simp at ha
+    · split at hb
+      · split at hb
+        · simp only [Option.some.injEq] at hb; subst hb; exact absurd sb hc
+        · simp at hb
+      · exact l3 a b ca cb ha hb sa sb
+
+theorem LoopInv'_append (lt lr : Bool) (cl : List Close) (c : Close) (hc : c.stage ≠ .stopping) (hl : LoopInv' lt lr cl) :
+    LoopInv' lt lr (cl ++ [c]) := by
+  obtain ⟨l1, l2, l3⟩ := hl
+  have key : ∀ (j : Nat) (cj : Close), (cl ++ [c])[j]? = some cj → cj.stage = .stopping → cl[j]? = some cj := by
+    intro j cj hj hst
+    rw [List.getElem?_append] at hj
+    split at hj
+    · exact hj
+    · rw [List.getElem?_singleton] at hj
+      split at hj
+      · simp only [Option.some.injEq] at hj; subst hj; exact absurd hst hc
+      · simp at hj
+  refine ⟨l1, ?_, ?_⟩
+  · intro j cj hj hst
+    exact l2 j cj (key j cj hj hst) hst
+  · intro a b ca cb ha hb sa sb
+    exact l3 a b ca cb (key a ca ha sa) (key b cb hb sb) sa sb
+
+/-- `LoopInv` is preserved by every block except a sync close entering `_shutdown_threads()` while another one is
+about to stop the loop (finding D32) -/
+theorem LoopInv_step (h : Host) (b : Block) (h' : Host) (o : List Out) (hl : LoopInv h) (hn : b.overlapsStop h = false)
+    (hs : step h b = some (h', o)) : LoopInv h' := by
+  have hns : ∀ k, CStage.unregistering k ≠ .stopping := by intro k hh; cases hh
+  cases b with
+  | closeCall sync =>
+    simp only [step] at hs
+    split at hs
+    · simp at hs
+    · split at hs
+      · simp only [Option.some.injEq, Prod.mk.injEq] at hs
+        obtain ⟨rfl, _⟩ := hs
+        exact LoopInv'_append _ _ _ _ (by intro hh; cases hh) hl
+      · split at hs
+        · simp only [Option.some.injEq, Prod.mk.injEq] at hs
+          obtain ⟨rfl, _⟩ := hs
+          exact LoopInv'_append _ _ _ _ (hns _) hl
+        · simp only [Option.some.injEq, Prod.mk.injEq] at hs
+          obtain ⟨rfl, _⟩ := hs
+          obtain ⟨k, hk⟩ := closeBody_stage h sync
+          simp only [LoopInv, closeBody] at hk ⊢
+          exact LoopInv'_append _ _ _ _ (by rw [hk]; exact hns _) hl
+  | closeWake i t =>
+    simp only [step] at hs
+    split at hs
+    · have body : ∀ h2 o2, (let r := closeBody h false; some (r.1.setStage i false r.2.2, r.2.1)) = some (h2, o2) → LoopInv h2 := by
+        intro h2 o2 he
+        simp only [Option.some.injEq, Prod.mk.injEq] at he
+        obtain ⟨rfl, _⟩ := he
+        obtain ⟨k, hk⟩ := closeBody_stage h false
+        simp only [LoopInv, closeBody, Host.setStage] at hk ⊢
+        exact LoopInv'_set _ _ _ _ _ (by rw [hk]; exact hns _) hl
+      split at hs
+      · exact body _ _ hs
+      · split at hs
+        · simp at hs
+        · split at hs
+          · simp only [Option.some.injEq, Prod.mk.injEq] at hs
+            obtain ⟨rfl, _⟩ := hs
+            exact LoopInv'_set _ _ _ _ _ (by intro hh; cases hh) hl
+          · exact body _ _ hs
+    · simp at hs
+  | closeGoodbye i =>
+    simp only [step] at hs
+    split at hs
+    · simp only [Option.some.injEq, Prod.mk.injEq] at hs
+      obtain ⟨rfl, _⟩ := hs
+      exact LoopInv'_set _ _ _ _ _ (hns _) hl
+    · simp at hs
+  | closeMarkDone i c =>
+    simp only [step] at hs
+    split at hs
+    · split at hs
+      · simp only [Option.some.injEq, Prod.mk.injEq] at hs
+        obtain ⟨rfl, _⟩ := hs
+        exact LoopInv'_set _ _ _ _ _ (by intro hh; cases hh) hl
+      · simp only [Option.some.injEq, Prod.mk.injEq] at hs
+        obtain ⟨rfl, _⟩ := hs
+        obtain ⟨_, _, _, z4, _, _, _, z8, z9⟩ := zcClose_frame h
+        simp only [LoopInv, Host.setStage, z4, z8, z9]
+        exact LoopInv'_set _ _ _ _ _ (by intro hh; cases hh) hl
+    · simp at hs
+  | closeShutdown i =>
+    simp only [step] at hs
+    split at hs
+    · simp only [Option.some.injEq, Prod.mk.injEq] at hs
+      obtain ⟨rfl, _⟩ := hs
+      obtain ⟨_, _, _, z4, _, _, _, z8, z9⟩ := zcClose_frame h
+      simp only [LoopInv, Host.setStage, z4, z8, z9]
+      exact LoopInv'_set _ _ _ _ _ (by intro hh; cases hh) hl
+    · (repeat' split at hs) <;>
+      · simp only [Option.some.injEq, Prod.mk.injEq] at hs
+        obtain ⟨rfl, _⟩ := hs
+        exact LoopInv'_set _ _ _ _ _ (by intro hh; cases hh) hl
+    · simp at hs
+  | closeFinish i =>
+    simp only [step] at hs
+    split at hs
+    · simp only [Option.some.injEq, Prod.mk.injEq] at hs
+      obtain ⟨rfl, _⟩ := hs
+      exact LoopInv'_set _ _ _ _ _ (by intro hh; cases hh) hl
+    · simp only [Option.some.injEq, Prod.mk.injEq] at hs
+      obtain ⟨rfl, _⟩ := hs
+      exact LoopInv'_set _ _ _ _ _ (by intro hh; cases hh) hl
+    · simp at hs
+  | closeThreadsCheck i =>
+    simp only [step] at hs
+    split at hs
+    · rename_i hi
+      simp only [Option.some.injEq, Prod.mk.injEq] at hs
+      obtain ⟨rfl, _⟩ := hs
+      simp only [Block.overlapsStop] at hn
+      rw [shutdown_threads_skipped_iff]
+      cases hlt : h.loopThread with
+      | false => exact LoopInv'_set _ _ _ _ _ (by simp) (hlt ▸ hl)
+      | true =>
+        -- no other close is stopping: this one becomes the only one
+        obtain ⟨l1, l2, l3⟩ := hl
+        have hnone : ∀ (j : Nat) (cj : Close), h.closes[j]? = some cj → cj.stage ≠ .stopping := by
+          intro j cj hj hst
+          have : h.closes.any Close.isStopping = true :=
+            List.any_eq_true.mpr ⟨cj, List.mem_of_getElem? hj, by simp [Close.isStopping, hst]⟩
+          rw [hn] at this
+          cases this
+        have hlen : i < h.closes.length := (List.getElem?_eq_some_iff.mp hi).1
+        have hlr : h.loopRunning = true := l1 hlt
+        simp only [LoopInv, Host.setStage, LoopInv', Bool.not_true, Bool.false_eq_true, ↓reduceIte]
+        refine ⟨l1, fun _ _ _ _ => hlr, ?_⟩
+        intro a b ca cb ha hb sa sb
+        rw [List.getElem?_set] at ha hb
+        split at ha
+        · rename_i hia
+          split at hb
+          · rename_i hib
+            omega
+          · exact absurd sb (hnone b cb hb)
+        · exact absurd sa (hnone a ca ha)
+    · simp at hs
+  | closeThreadsStop i =>
+    simp only [step] at hs
+    split at hs
+    · rename_i hi
+      split at hs
+      · simp only [Option.some.injEq, Prod.mk.injEq] at hs
+        obtain ⟨rfl, _⟩ := hs
+        exact LoopInv'_set _ _ _ _ _ (by intro hh; cases hh) hl
+      · simp only [Option.some.injEq, Prod.mk.injEq] at hs
+        obtain ⟨rfl, _⟩ := hs
+        obtain ⟨l1, l2, l3⟩ := hl
+        simp only [LoopInv, Host.setStage, LoopInv', shutdown_threads_stops_loop_holds, shutdown_threads_forgets_thread_holds, ↓reduceIte]
+        have hlen : i < h.closes.length := (List.getElem?_eq_some_iff.mp hi).1
+        -- no other close was stopping (it would be the same one), so none is now
+        have hnone : ∀ (j : Nat) (cj : Close), (h.closes.set i ⟨true, .returned⟩)[j]? = some cj → cj.stage ≠ .stopping := by
+          intro j cj hj hst
+          by_cases hij : i = j
+          · subst hij
+            rw [List.getElem?_set_self hlen] at hj
+            simp only [Option.some.injEq] at hj
+            subst hj
+            cases hst
+          · rw [List.getElem?_set_ne hij] at hj
+            exact hij (l3 i j _ cj hi hj rfl hst)
+        refine ⟨by simp, fun j cj hj hst => absurd hst (hnone j cj hj), fun a b ca cb ha _ sa _ => absurd sa (hnone a ca ha)⟩
+    · simp at hs
+  | closeAbort i =>
+    simp only [step] at hs
+    split at hs
+    all_goals first
+      | (simp only [Option.some.injEq, Prod.mk.injEq] at hs
+         obtain ⟨rfl, _⟩ := hs
+         exact LoopInv'_set _ _ _ _ _ (by intro hh; cases hh) hl)
+      | simp at hs
+  | _ =>
+    simp only [step] at hs <;> (repeat' split at hs) <;>
+      first
+      | (simp at hs; done)
+      | (simp only [Option.some.injEq, Prod.mk.injEq] at hs
+         obtain ⟨rfl, _⟩ := hs
+         first
+         | exact hl
+         | (split <;> exact hl))
 
 end Zc.Shutdown
